@@ -28,25 +28,53 @@ theorem ite_or_else {β : Sort _} {p q : Prop} [Decidable p] [Decidable q] (A I 
     (if p then A else if q then A else I) = if p ∨ q then A else I := by
   by_cases hp : p <;> by_cases hq : q <;> simp [hp, hq]
 
-/-- two guard conjunctions whose conjuncts agree up to ring normalisation inside `|·|` (any order) -/
+/-! Guard conjunctions: the extracted chain `|s| < |r| * tmin⁻¹ ∧ …` against the specification's `∀ i j, …`.  The two
+sides list the same guards, possibly in another order and with cofactors / determinant written differently; every
+conjunct is matched up to ring normalisation of `s` and of `r` (so reordered sums in the C++ do not matter). -/
+section
+variable {α : Type} [Field α] [LinearOrder α]
+theorem guard_congr_mul {s s' r r' t : α} (hs : s = s') (hr : r = r') : (|s| < |r| * t⁻¹ ↔ |s'| < |r'| * t⁻¹) := by rw [hs, hr]
+theorem guard_congr_div {s s' r r' t : α} (hs : s = s') (hr : r = r') : (|s| < |r| / t ↔ |s'| < |r'| / t) := by rw [hs, hr]
+theorem guard_congr_md {s s' r r' t : α} (hs : s = s') (hr : r = r') : (|s| < |r| * t⁻¹ ↔ |s'| < |r'| / t) := by rw [hs, hr, div_eq_mul_inv]
+theorem guard_congr_dm {s s' r r' t : α} (hs : s = s') (hr : r = r') : (|s| < |r| / t ↔ |s'| < |r'| * t⁻¹) := by rw [hs, hr, div_eq_mul_inv]
+theorem one_le_congr {r r' : α} (h : r = r') : (1 ≤ |r| ↔ 1 ≤ |r'|) := by rw [h]
+end
+
+macro "gfind " h:ident : tactic =>
+  `(tactic| first
+    | (refine (guard_congr_mul ?_ ?_).mp $h <;> ring1)
+    | (refine (guard_congr_div ?_ ?_).mp $h <;> ring1)
+    | (refine (guard_congr_md ?_ ?_).mp $h <;> ring1)
+    | (refine (guard_congr_dm ?_ ?_).mp $h <;> ring1))
+/-- entry goal of `X * A = 1` in which the code's determinant expression occurs only as `(…)⁻¹`: name that inverse, identify it
+with the inverse of the canonical determinant polynomial `c` (known non-zero), clear denominators -/
+macro "invtac " ty:term:max c:term:max hd:ident : tactic =>
+  `(tactic| (generalize hu : (_ : $ty)⁻¹ = u
+             obtain ⟨D, hD⟩ : ∃ D : $ty, D = $c := ⟨_, rfl⟩
+             have hdD : D ≠ 0 := by rw [hD]; exact $hd
+             have hu2 : u = D⁻¹ := by rw [← hu, hD]; first | ring1 | (congr 1; ring1)
+             rw [hu2]; field_simp; first | done | ring1 | (rw [hD]; ring1)))
+
 macro "guards4" : tactic =>
   `(tactic| (constructor <;>
       (rintro ⟨h1, h2, h3, h4⟩
-       and_intros <;>
-          first
-          | (convert h1 using 2; ring1) | (convert h2 using 2; ring1)
-          | (convert h3 using 2; ring1) | (convert h4 using 2; ring1))))
+       and_intros <;> first | gfind h1 | gfind h2 | gfind h3 | gfind h4)))
 macro "guards9" : tactic =>
   `(tactic| (constructor <;>
       (rintro ⟨h1, h2, h3, h4, h5, h6, h7, h8, h9⟩
        and_intros <;>
-          first
-          | (convert h1 using 2; ring1) | (convert h2 using 2; ring1) | (convert h3 using 2; ring1)
-          | (convert h4 using 2; ring1) | (convert h5 using 2; ring1) | (convert h6 using 2; ring1)
-          | (convert h7 using 2; ring1) | (convert h8 using 2; ring1) | (convert h9 using 2; ring1))))
+          first | gfind h1 | gfind h2 | gfind h3 | gfind h4 | gfind h5 | gfind h6 | gfind h7 | gfind h8 | gfind h9)))
 
 section
 variable {α : Type} [Field α]
+
+/-- canonical polynomial forms of the determinants (spec side) -/
+theorem M22_det_canon (a : M22 α) : a.toMat.det = a.x00 * a.x11 - a.x01 * a.x10 := by
+  simp [M22.toMat, Matrix.det_fin_two]
+theorem M33_det_canon (a : M33 α) :
+    a.toMat.det = a.x00 * a.x11 * a.x22 - a.x00 * a.x12 * a.x21 - a.x01 * a.x10 * a.x22 + a.x01 * a.x12 * a.x20
+      + a.x02 * a.x10 * a.x21 - a.x02 * a.x11 * a.x20 := by
+  simp [M33.toMat, Matrix.det_fin_three]
 
 theorem M33_det_expand (a : M33 α) :
     a.x00 * (a.x11 * a.x22 - a.x21 * a.x12) + a.x01 * (a.x20 * a.x12 - a.x10 * a.x22)
@@ -80,6 +108,12 @@ variable {α : Type} [Field α] [LinearOrder α] [IsStrictOrderedRing α]
 
 /-- the overflow guard can only pass when the determinant is non-zero (for ANY `tmin`: `0 / tmin = 0`) -/
 theorem det_ne_zero_of_guard {d tmin s : α} (h : 1 ≤ |d| ∨ |s| < |d| / tmin) : d ≠ 0 := by
+  rintro rfl
+  rcases h with h | h
+  · simp at h; linarith
+  · simp at h; exact absurd h (not_lt.mpr (abs_nonneg s))
+
+theorem det_ne_zero_of_guard_mul {d t s : α} (h : 1 ≤ |d| ∨ |s| < |d| * t) : d ≠ 0 := by
   rintro rfl
   rcases h with h | h
   · simp at h; linarith
